@@ -27,15 +27,16 @@ Inductive init_req :=
 | InitInvalid.               (* anything else (str other than 'random', float, list with a non-integer) *)
 
 (* _FPS._init_greedy_search: `selected_idx_[i] = val` needs i < n_to_select, and
-   `_update_post_selection(X, y, val)` needs a valid index (negative values are outside the
-   model: numpy wraps them) *)
+   `_update_post_selection(X, y, val)` needs a valid index: numpy accepts -n <= val < n, a negative
+   value addressing item n + val (the code stores the value as given; the harness reduces the
+   reported indices modulo n before comparing), anything else raises IndexError *)
 Definition init_check (n k : nat) (r : init_req) : option (list nat) :=
   match r with
   | InitInvalid => None
   | InitNone => Some []
   | InitIdx l =>
-      if Nat.leb (length l) k && forallb (fun z => (0 <=? z) && (z <? Z.of_nat n)) l
-      then Some (map Z.to_nat l) else None
+      if Nat.leb (length l) k && forallb (fun z => (- Z.of_nat n <=? z) && (z <? Z.of_nat n)) l
+      then Some (map (fun z => Z.to_nat (z mod Z.of_nat n)) l) else None
   end.
 
 (* what a call of fit did *)
